@@ -103,6 +103,17 @@ def add_dynamic_children(rng, base):
         base.graphs["fn3"] = [S("e", "count", "p0", uid=uid + 2), S("", "RET", "e")]
         extra += [uid, uid + 1, uid + 2]
         uid += 3
+        if rng.random() < 0.5:
+            # branches that END in a nested graph: the switch output forwards to the child's terminal (a separate
+            # activation path: output re-point, start of the incoming branch, stop of the outgoing one)
+            sid = 1 + max([int(g[3:]) for g in base.graphs if g.startswith("sub")] + [-1])
+            base.graphs[f"sub{sid}"] = [S("x", "pass", "p0", uid=uid), S("", "RET", "x")]
+            base.graphs[f"sub{sid + 1}"] = [S("x", "count", "p0", uid=uid + 1), S("y", "pass", "x", uid=uid + 2), S("", "RET", "y")]
+            base.graphs["fn2"] = base.graphs["fn2"][:-1] + [S("n", "nested", "e", sid=sid), S("", "RET", "n")]
+            base.graphs["fn3"] = base.graphs["fn3"][:-1] + [S("n", "nested", "e", sid=sid + 1), S("", "RET", "n")]
+            extra += [uid, uid + 1, uid + 2]
+            uid += 3
+            base.meta["forwarding_switch"] = 1
         main.append(S("dyn_s", "switch", "dyn_k", "dyn_a", cases="1:fn1:2,2:fn1:3"))
         main.append(S("", "rec", "dyn_s", uid=uid))
         uid += 1
